@@ -448,6 +448,23 @@ Theorem C13_admm_nonneg_fixed_point_kkt : forall (solve : list (list R) -> list 
 Proof. exact admm_nonneg_fixed_point_kkt. Qed.
 Print Assumptions C13_admm_nonneg_fixed_point_kkt.
 
+(* FULL: admm with l1_reg = t > 0 -- a state (x, dual_var) that one loop body reproduces satisfies, row by row, the optimality
+   conditions of the l1-penalised problem min 1/2 z' UtU z - UtM_c z + (rho t) |z|_1 (the weight is rho * t: the proximal step is
+   taken with unit step): |g| <= rho t, g = - rho t where x > 0, g = rho t where x < 0, g the gradient of the quadratic part.
+   (Fixed point => optimality conditions only.) *)
+Theorem C13_admm_l1_fixed_point_kkt : forall (solve : list (list R) -> list (list R) -> list (list R)) (UtM UtU : list (list R)) (m r : nat) (t : R),
+  wfm r r UtU -> wfm m r UtM -> 0 < admm_rho Rops UtU r -> 0 < t ->
+  (forall B, wfm r m B -> solves r m (admm_lhs Rops UtU r) B (solve (admm_lhs Rops UtU r) B)) ->
+  forall x d : list (list R), wfm m r x -> wfm m r d ->
+  let b := admm_body Rops solve (apply_constr Rops (KL1 t)) UtM UtU m r x d in
+  fst (fst b) = x -> snd b = d ->
+  forall c i, (c < m)%nat -> (i < r)%nat ->
+    let g := rsum r (fun k => mget Rops UtU k i * mget Rops x c k) - mget Rops UtM c i in
+    - (admm_rho Rops UtU r * t) <= g <= admm_rho Rops UtU r * t /\
+    (0 < mget Rops x c i -> g = - (admm_rho Rops UtU r * t)) /\ (mget Rops x c i < 0 -> g = admm_rho Rops UtU r * t).
+Proof. exact admm_l1_fixed_point_kkt. Qed.
+Print Assumptions C13_admm_l1_fixed_point_kkt.
+
 (* FULL: admm with non_negative=True returns a non-negative x -- any tl.solve (no contract), any data and shapes, any tol,
    any n_const / order the call accepts *)
 Theorem C13_admm_nonneg_returns_nonneg : forall (solve : list (list R) -> list (list R) -> list (list R)) (nc : nat) (order : option nat)
